@@ -1,0 +1,19 @@
+//go:build verif
+
+package query
+
+import (
+	"time"
+
+	"github.com/lindb/lindb/internal/concurrent"
+	"github.com/lindb/lindb/internal/linmetric"
+	"github.com/lindb/lindb/metrics"
+)
+
+// VerifNewTaskManager builds the real task manager on a real worker pool, as the broker runtime wires them
+// (internal/concurrent and internal/linmetric cannot be imported from outside the module). stop ends the pool.
+// Simulation hook (build tag verif), not part of the shipped binary.
+func VerifNewTaskManager(name string, workers int, idle time.Duration) (mgr TaskManager, stop func()) {
+	pool := concurrent.NewPool(name, workers, idle, metrics.NewConcurrentStatistics(name, linmetric.BrokerRegistry))
+	return NewTaskManager(pool, linmetric.BrokerRegistry), pool.Stop
+}
